@@ -9,7 +9,6 @@ import (
 	"fmt"
 	"net/http"
 	"net/url"
-	"sort"
 	"strings"
 
 	"cuelabs.dev/go/oci/ociregistry"
@@ -697,7 +696,19 @@ func c04concurrentPatches(env *core.Env) {
 	c := env.C
 	ctx := context.Background()
 	mem := ocimem.New()
-	handler := ociserver.New(mem, nil)
+	// what the backend's writers accepted, in the order they accepted it (the
+	// simulator runs one task at a time, so this is the upload's content)
+	var shadow []byte
+	backend := &ociregistry.Funcs{
+		PushBlobChunkedResume_: func(ctx context.Context, repo, id string, offset int64, chunkSize int) (ociregistry.BlobWriter, error) {
+			w, err := mem.PushBlobChunkedResume(ctx, repo, id, offset, chunkSize)
+			if err != nil {
+				return nil, err
+			}
+			return &shadowWriter{BlobWriter: w, shadow: &shadow}, nil
+		},
+	}
+	handler := ociserver.New(backend, nil)
 	repo := repoNames[c.Int("repo", len(repoNames))]
 	L := []int{1, 3, 17}[c.Int("chunklen", 3)]
 	base := c.Bytes("base", c.Int("basechunks", 3)*L)
@@ -724,14 +735,21 @@ func c04concurrentPatches(env *core.Env) {
 		if c.Bool("offset.stale", 1, 6) && len(base) > 0 {
 			off = int64(len(base)) - int64(L)
 		}
+		if c.Bool("offset.inside-a-chunk", 1, 3) {
+			// where another request's body has got to, if it trickles in
+			off = int64(len(base)) + int64(c.Int("offset.bytes", 2*L+1))
+		}
 		data := bytes.Repeat([]byte{byte('A' + t)}, L)
 		plans[t] = &sent{off: off, data: data}
 	}
+	trickle := c.Bool("trickling-bodies", 1, 2)
 	sched := env.Sched
 	for t := 0; t < ntasks; t++ {
 		t := t
 		sched.Spawn(fmt.Sprintf("client%d", t), func() {
-			tr := &simnet.Transport{Env: env, Handler: handler}
+			// (a request body that trickles in byte by byte reaches the backend writer
+			// as many small writes, between which the other requests' handlers run)
+			tr := &simnet.Transport{Env: env, Handler: handler, OneByteReads: trickle}
 			cl, err := newClient(tr, 0)
 			if err != nil {
 				core.Harnessf("%v", err)
@@ -762,27 +780,56 @@ func c04concurrentPatches(env *core.Env) {
 				env.Failf("C04/concurrent/wrong-error", "a chunk sent at offset %d was refused with %s, want RANGE_INVALID: %v", p.off, reg.CodeOf(p.err), p.err)
 			}
 		}
-		sort.Slice(accepted, func(i, j int) bool { return accepted[i].off < accepted[j].off })
-		want := append([]byte{}, base...)
-		for i, p := range accepted {
-			if p.off != int64(len(base))+int64(i*L) {
-				var offs []int64
-				for _, q := range accepted {
-					offs = append(offs, q.off)
+		// Every byte the upload took from a client sits at the offset it was sent for:
+		// client t's bytes (all the same letter) form one run that begins at its offset
+		// (a refused request may have had a first part taken while that was still the
+		// end of the upload), the whole chunk if and only if the request succeeded.
+		want := append(append([]byte{}, base...), shadow...)
+		for t, p := range plans {
+			letter := p.data[0]
+			first, n := -1, 0
+			for i := len(base); i < len(want); i++ {
+				if want[i] == letter {
+					if first < 0 {
+						first = i
+					}
+					if i != first+n {
+						env.Failf("C04/concurrent/accepted-at-wrong-offset", "client %d sent %d bytes for offset %d; the upload took them in separate pieces (%q after the first %d bytes): part of its data went in at an offset it was not sent for", t, len(p.data), p.off, want[len(base):], len(base))
+					}
+					n++
 				}
-				env.Failf("C04/concurrent/accepted-at-wrong-offset", "the upload held %d bytes; chunks of %d bytes sent at offsets %v were all accepted: the one at %d cannot have been at the end of the upload when it was taken", len(base), L, offs, p.off)
 			}
-			want = append(want, p.data...)
+			if n > 0 && int64(first) != p.off {
+				env.Failf("C04/concurrent/accepted-at-wrong-offset", "client %d sent its chunk for offset %d but the upload took it at offset %d (content after the first %d bytes: %q)", t, p.off, first, len(base), want[len(base):])
+			}
+			if p.err == nil && n != len(p.data) {
+				env.Failf("C04/concurrent/accepted-but-incomplete", "client %d's request succeeded but only %d of its %d bytes are in the upload", t, n, len(p.data))
+			}
+			if p.err != nil && n == len(p.data) {
+				env.Probe("c04:refused-after-all-bytes-taken")
+			}
 		}
+		_ = accepted
 		w, err := mem.PushBlobChunkedResume(ctx, repo, rawID, -1, 0)
 		if err != nil {
 			core.Harnessf("%v", err)
 		}
 		if w.Size() != int64(len(want)) {
-			env.Failf("C04/concurrent/size", "%d chunk(s) were accepted on top of %d bytes but the upload now holds %d bytes, want %d", len(accepted), len(base), w.Size(), len(want))
+			env.Failf("C04/concurrent/size", "the backend writers accepted %d bytes on top of %d but the upload now holds %d bytes", len(shadow), len(base), w.Size())
 		}
 		if _, err := w.Commit(reg.Sha256(want)); err != nil {
-			env.Failf("C04/concurrent/content", "the upload does not hold the accepted chunks in offset order: commit with their digest failed: %v", err)
+			env.Failf("C04/concurrent/content", "the upload does not hold the bytes its writers accepted, in the order they accepted them: commit with their digest failed: %v", err)
 		}
 	})
+}
+
+type shadowWriter struct {
+	ociregistry.BlobWriter
+	shadow *[]byte
+}
+
+func (w *shadowWriter) Write(p []byte) (int, error) {
+	n, err := w.BlobWriter.Write(p)
+	*w.shadow = append(*w.shadow, p[:n]...)
+	return n, err
 }
